@@ -38,6 +38,7 @@ import (
 	"strconv"
 	"strings"
 	"sync"
+	"sync/atomic"
 	"syscall"
 	"time"
 
@@ -60,7 +61,7 @@ import (
 type Inj struct {
 	K string `json:"k"`           // change | change_err | sighup | sigterm | sigint | shutdown | ctx | fatal
 	C string `json:"c,omitempty"` // component (fatal)
-	N int    `json:"n,omitempty"` // goroutines (shutdown)
+	N int    `json:"n,omitempty"` // goroutines (shutdown), released together by a spin barrier
 }
 
 type Step struct {
@@ -244,6 +245,13 @@ func (s *session) inject(in Inj) {
 		var pmu sync.Mutex
 		panics := 0
 		done := make(chan struct{})
+		// The callers are released together through a spin barrier: every goroutine announces that it
+		// is ready and then busy-waits on an atomic flag, so that the calls really overlap (goroutines
+		// that are merely started one after the other almost never do).
+		if max := runtime.GOMAXPROCS(0) - 1; n > max && max >= 1 {
+			n = max
+		}
+		var ready, release atomic.Int32
 		for i := 0; i < n; i++ {
 			wg.Add(1)
 			go func() {
@@ -255,9 +263,19 @@ func (s *session) inject(in Inj) {
 						pmu.Unlock()
 					}
 				}()
+				ready.Add(1)
+				for spins := 0; release.Load() == 0; spins++ {
+					if spins > 1<<24 {
+						runtime.Gosched() // the machine is badly overcommitted: do not burn it for ever
+					}
+				}
 				s.col.Shutdown()
 			}()
 		}
+		for t0 := time.Now(); ready.Load() < int32(n) && time.Since(t0) < 5*time.Second; {
+			runtime.Gosched()
+		}
+		release.Store(1)
 		go func() { wg.Wait(); close(done) }()
 		select {
 		case <-done:
@@ -979,7 +997,7 @@ func runScript(sc *Script, out *bufio.Writer, watchdog time.Duration) {
 	for _, st := range post {
 		s.injectStep(st)
 	}
-	s.inject(Inj{K: "shutdown", N: 2}) // Shutdown() after Closed must be harmless
+	s.inject(Inj{K: "shutdown", N: 4}) // Shutdown() after Closed must be harmless
 	// late notifiers / reporters of this script get a moment to finish (they may be blocked for good)
 	time.Sleep(time.Millisecond)
 	rec.add("end", "ms", time.Since(began).Milliseconds())
